@@ -321,3 +321,19 @@ package store
 //@   requires nonnil: s != nil
 //@   modifies heap
 //@   ensures the_index_of_an_unchanged_run_id_is_kept: result == nil && id != "" && id != "?" && old(s.runId) == id && old(s.dataSet) != nil ==> s.dataSet == old(s.dataSet)
+
+// ---- a snapshot whose writer gave up is taken off the index (C05; KNOWN FINDING on the disk cache)
+// The snapshot writer tells its close observer whether the snapshot is incomplete (third
+// argument); the temporary file is removed then, so the entry must not stay on offer.
+//   rdbTakenOff  1 once this observer call has taken the snapshot entry off the index
+//@ func dataSetRdb.DelWriter(self, wr)
+//@   trusted frame: drops the writer reference of the snapshot entry
+//@ func Storer.newRdbWCloseObserver$1
+//@   arith int
+//@   properties C05
+//@   replay syncer_incompleteSnapshotOfferedDisk@syncer
+//@   ghost var rdbTakenOff mathint = 0
+//@   modifies heap, rdbTakenOff
+//@   set rdbTakenOff = 0 at call DelWriter
+//@   set rdbTakenOff = 1 at call forgetIncompleteRdb optional
+//@   ensures an_incomplete_snapshot_is_taken_off_the_index: len(args) == 3 && args[2] == dyn(true) ==> rdbTakenOff == 1
